@@ -31,32 +31,28 @@ theorem step_eq (CT : Bool) (limb i : ℕ) (acc ins : Ext) :
      simp only [addG_eq, dblG_eq]
      cases CT <;> cases h : ((limb / 2 ^ i) % 2 == 1) <;> simp_all)
 
-def ladderPair : List Bool → Ext × Ext → Ext × Ext
-  | [], st => st
-  | b :: bs, st => ladderPair bs (stepM b st)
+/-! ### bit-serial loops, generically: `for limb in limbs { for i in 0..64 { s = step ((limb >> i) & 1 == 1) s } }` -/
+section generic
+variable {σ : Type} (step : Bool → σ → σ)
 
-theorem ladderPair_append (l1 l2 : List Bool) (st : Ext × Ext) : ladderPair (l1 ++ l2) st = ladderPair l2 (ladderPair l1 st) := by
+def foldBits : List Bool → σ → σ
+  | [], st => st
+  | b :: bs, st => foldBits bs (step b st)
+
+theorem foldBits_append (l1 l2 : List Bool) (st : σ) : foldBits step (l1 ++ l2) st = foldBits step l2 (foldBits step l1 st) := by
   induction l1 generalizing st with
   | nil => rfl
   | cons b bs ih => exact ih _
 
-theorem ladderLsb_eq_pair (bits : List Bool) (acc ins : Ext) :
-    Ext.ladderLsbAux Ext.addMin Ext.doubleMin bits acc ins = (ladderPair bits (acc, ins)).1 := by
-  induction bits generalizing acc ins with
-  | nil => rfl
-  | cons b bs ih =>
-    show Ext.ladderLsbAux Ext.addMin Ext.doubleMin bs _ _ = (ladderPair bs (stepM b (acc, ins))).1
-    rw [ih]; rfl
-
-/-- `for i in 0..n` over the bits `(limb >> i) & 1` is the ladder over `limbBits limb n` -/
-theorem range_fold (n : ℕ) : ∀ (limb : ℕ) (st : Ext × Ext),
-    (List.range n).foldl (fun st i => stepM ((limb / 2 ^ i) % 2 == 1) st) st = ladderPair (limbBits limb n) st := by
+/-- `for i in 0..n` over the bits `(limb >> i) & 1` is the fold over `limbBits limb n` -/
+theorem range_fold (n : ℕ) : ∀ (limb : ℕ) (st : σ),
+    (List.range n).foldl (fun st i => step ((limb / 2 ^ i) % 2 == 1) st) st = foldBits step (limbBits limb n) st := by
   induction n with
   | zero => intro limb st; rfl
   | succ n ih =>
     intro limb st
     rw [List.range_succ_eq_map, List.foldl_cons, List.foldl_map]
-    show _ = ladderPair (limbBits (limb / 2) n) (stepM (limb % 2 == 1) st)
+    show _ = foldBits step (limbBits (limb / 2) n) (step (limb % 2 == 1) st)
     rw [← ih (limb / 2)]
     have h0 : limb / 2 ^ 0 = limb := by simp
     rw [h0]
@@ -65,16 +61,26 @@ theorem range_fold (n : ℕ) : ∀ (limb : ℕ) (st : Ext × Ext),
     have : limb / 2 ^ (i + 1) = limb / 2 / 2 ^ i := by rw [pow_succ', Nat.div_div_eq_div_mul]
     rw [this]
 
-theorem limbs_fold (limbs : List ℕ) : ∀ st : Ext × Ext,
-    limbs.foldl (fun st limb => (List.range 64).foldl (fun st i => stepM ((limb / 2 ^ i) % 2 == 1) st) st) st
-      = ladderPair (limbsBits limbs) st := by
+theorem limbs_fold (limbs : List ℕ) : ∀ st : σ,
+    limbs.foldl (fun st limb => (List.range 64).foldl (fun st i => step ((limb / 2 ^ i) % 2 == 1) st) st) st
+      = foldBits step (limbsBits limbs) st := by
   induction limbs with
   | nil => intro st; rfl
   | cons l ls ih =>
     intro st
     rw [List.foldl_cons, ih, range_fold]
-    show _ = ladderPair (limbBits l 64 ++ limbsBits ls) st
-    rw [ladderPair_append]
+    show _ = foldBits step (limbBits l 64 ++ limbsBits ls) st
+    rw [foldBits_append]
+
+end generic
+
+theorem ladderLsb_eq_pair (bits : List Bool) (acc ins : Ext) :
+    Ext.ladderLsbAux Ext.addMin Ext.doubleMin bits acc ins = (foldBits stepM bits (acc, ins)).1 := by
+  induction bits generalizing acc ins with
+  | nil => rfl
+  | cons b bs ih =>
+    show Ext.ladderLsbAux Ext.addMin Ext.doubleMin bs _ _ = (foldBits stepM bs (stepM b (acc, ins))).1
+    rw [ih]; rfl
 
 /-- the translated ladder is the model's, for both values of `CT` -/
 theorem min_scalar_mul_both_eq (CT : Bool) (p : Ext) (limbs : List ℕ) :
@@ -85,13 +91,97 @@ theorem min_scalar_mul_both_eq (CT : Bool) (p : Ext) (limbs : List ℕ) :
        = (fun st limb => (List.range 64).foldl (fun st i => stepM ((limb / 2 ^ i) % 2 == 1) st) st) := by
     funext st limb
     simp only [step_eq, Prod.mk.eta]
-  rw [this, limbs_fold]
+  rw [this, limbs_fold stepM]
 
 theorem min_scalar_mul_vartime_eq (p : Ext) (limbs : List ℕ) : Gen.Formulas.min_scalar_mul_vartime p limbs = p.scalarMulMin limbs := by
   unfold Gen.Formulas.min_scalar_mul_vartime; exact min_scalar_mul_both_eq _ p limbs
 
 theorem min_scalar_mul_eq (p : Ext) (limbs : List ℕ) : Gen.Formulas.min_scalar_mul p limbs = p.scalarMulMin limbs := by
   unfold Gen.Formulas.min_scalar_mul; exact min_scalar_mul_both_eq _ p limbs
+
+/-! ### `pow_le_limbs` of the minimal square-root routine (src/min_curve/invsqrt.rs), the same skeleton over field elements -/
+
+def stepP (bit : Bool) (st : ℕ × ℕ) : ℕ × ℕ := (if bit then fmul q st.1 st.2 else st.1, fmul q st.2 st.2)
+
+theorem pow_step_eq (limb i acc ins : ℕ) :
+    Gen.Formulas.min_pow_le_limbs_step limb i acc ins = stepP ((limb / 2 ^ i) % 2 == 1) (acc, ins) := by
+  first
+  | (unfold Gen.Formulas.min_pow_le_limbs_step stepP; with_reducible rfl)
+  | (unfold Gen.Formulas.min_pow_le_limbs_step stepP
+     cases h : ((limb / 2 ^ i) % 2 == 1) <;> simp_all)
+
+theorem powLeLimbsAux_eq_pair (bits : List Bool) (acc ins : ℕ) :
+    powLeLimbsAux q bits acc ins = (foldBits stepP bits (acc, ins)).1 := by
+  induction bits generalizing acc ins with
+  | nil => rfl
+  | cons b bs ih =>
+    show powLeLimbsAux q bs _ _ = (foldBits stepP bs (stepP b (acc, ins))).1
+    rw [ih]; rfl
+
+theorem min_pow_le_limbs_eq (x : ℕ) (limbs : List ℕ) : Gen.Formulas.min_pow_le_limbs x limbs = powLeLimbs q x limbs := by
+  unfold Gen.Formulas.min_pow_le_limbs powLeLimbs
+  rw [powLeLimbsAux_eq_pair]
+  have h1 : 1 % q = 1 := Nat.mod_eq_of_lt (by have := q_gt_two; omega)
+  rw [h1]
+  have : (fun (st : ℕ × ℕ) limb => (List.range 64).foldl (fun st i => Gen.Formulas.min_pow_le_limbs_step limb i st.1 st.2) st)
+       = (fun st limb => (List.range 64).foldl (fun st i => stepP ((limb / 2 ^ i) % 2 == 1) st) st) := by
+    funext st limb
+    simp only [pow_step_eq, Prod.mk.eta]
+  rw [this, limbs_fold stepP]
+
+/-! ### `our_sqrt` (constant-time Tonelli–Shanks of the minimal backend): straight-line prefix, then
+`for i in (2..=TWO_ADICITY).rev() { for _j in 1..=i-2 { b = b*b } … }` on the state (z, t, b, c) -/
+
+theorem iter_fold (n b : ℕ) : (List.range n).foldl (fun b _ => Gen.Formulas.min_our_sqrt_inner b) b = iterSq q n b := by
+  induction n generalizing b with
+  | zero => rfl
+  | succ n ih =>
+    rw [List.range_succ_eq_map, List.foldl_cons, List.foldl_map]
+    show _ = iterSq q n (fmul q b b)
+    rw [← ih]
+    first | rfl | (unfold Gen.Formulas.min_our_sqrt_inner; rfl)
+
+/-- the model's outer-loop step -/
+def stepS (i : ℕ) (st : ℕ × ℕ × ℕ × ℕ) : ℕ × ℕ × ℕ × ℕ :=
+  let bb := iterSq q (i - 2) st.2.2.1
+  let c' := fmul q st.2.2.2 st.2.2.2
+  let t' := if bb != 1 then fmul q st.2.1 c' else st.2.1
+  (if bb != 1 then fmul q st.1 st.2.2.2 else st.1, t', t', c')
+
+theorem os_step_eq (i z t b c : ℕ) : Gen.Formulas.min_our_sqrt_step i z t b c = stepS i (z, t, b, c) := by
+  first
+  | (unfold Gen.Formulas.min_our_sqrt_step stepS; simp only [iter_fold, bne]; done)
+  | (unfold Gen.Formulas.min_our_sqrt_step stepS; simp only [iter_fold, bne]; with_reducible rfl)
+  | (unfold Gen.Formulas.min_our_sqrt_step stepS
+     simp only [iter_fold, bne]
+     cases h : (iterSq q (i - 2) b == 1) <;> simp_all)
+
+theorem os_loop_eq (n : ℕ) : ∀ z t b c : ℕ,
+    ((List.range' 2 n).reverse.foldl (fun st i => stepS i st) (z, t, b, c)).1 = ourSqrtLoop (n + 1) z t b c := by
+  induction n with
+  | zero => intro z t b c; rfl
+  | succ n ih =>
+    intro z t b c
+    rw [List.range'_concat, List.reverse_append, List.reverse_singleton, List.singleton_append, List.foldl_cons]
+    have h2 : 2 + 1 * n = n + 2 := by omega
+    rw [h2]
+    show (List.foldl (fun st i => stepS i st) (stepS (n + 2) (z, t, b, c)) (List.range' 2 n).reverse).1 = ourSqrtLoop (n + 2) z t b c
+    have hs : stepS (n + 2) (z, t, b, c) =
+        (if iterSq q n b != 1 then fmul q z c else z,
+         if iterSq q n b != 1 then fmul q t (fmul q c c) else t,
+         if iterSq q n b != 1 then fmul q t (fmul q c c) else t, fmul q c c) := by
+      unfold stepS
+      simp only [Nat.add_sub_cancel]
+    rw [hs, ih]
+    rfl
+
+theorem min_our_sqrt_eq (x : ℕ) : Gen.Formulas.min_our_sqrt x = ourSqrt x := by
+  first
+  | (unfold Gen.Formulas.min_our_sqrt; with_reducible rfl)          -- untranslated: the fallback
+  | (unfold Gen.Formulas.min_our_sqrt ourSqrt QNR_TO_TRACE
+     have hN : Gen.fields_fq.Fq.TWO_ADICITY.natVal = (Gen.Formulas.litNat Gen.fields_fq.Fq.TWO_ADICITY - 1) + 1 := by decide
+     simp only [os_step_eq, Prod.mk.eta, min_pow_le_limbs_eq]
+     rw [hN, ← os_loop_eq])
 
 end Formulas
 
